@@ -3039,6 +3039,7 @@ int confserver_cb(struct gconffile **cf, void *arg, char *block, char *opt, char
         conf->secret_len = resconf->secret_len;
         conf->blockingstartup = resconf->blockingstartup;
         conf->type = resconf->type;
+        conf->pdef = resconf->pdef; /* the limits of RetryInterval/RetryCount are looked up there even if the block names no type */
         conf->sni = resconf->sni;
     } else {
         conf->certnamecheck = 1;
